@@ -4,6 +4,7 @@ import Aiortc.Drv.Util
 Driver for `Model/Ntp.lean` (C18, the SR → LSR chain).  Requests:
 
 * `ntp to <days> <seconds> <microseconds>` — `datetime_to_ntp(NTP_EPOCH + timedelta(...))`
+* `ntp abs <ntp>` — the abs-send-time expression of `RTCRtpSender._run_rtp` on `current_ntp_time() = ntp`
 * `ntp from <ntp>` — `datetime_from_ntp(ntp) - NTP_EPOCH` as `days seconds microseconds`
 -/
 namespace Aiortc.Drv.Ntp
@@ -17,6 +18,10 @@ def handleTop : List String → String
   | ["from", n] =>
     match parseNat? n with
     | some n => let (d, s, m) := fromNtp n; s!"ok {d} {s} {m}"
+    | none => "bad-op"
+  | ["abs", n] =>
+    match parseNat? n with
+    | some n => s!"ok {absSendTime n}"
     | none => "bad-op"
   | _ => "bad-op"
 
